@@ -439,6 +439,9 @@ func (r ruleData) toAuditRuleData() (*auditRuleData, error) {
 }
 
 func (r *ruleData) fromAuditRuleData(in *auditRuleData) error {
+	if in.FieldCount > maxFields {
+		return fmt.Errorf("field count %d exceeds the maximum of %d", in.FieldCount, maxFields)
+	}
 	r.flags = in.Flags
 	r.action = in.Action
 	r.fields = make([]field, in.FieldCount)
